@@ -836,7 +836,9 @@ def q8(run, project):
 def check(run, project):
     L = ctx.layout(project)
     run.explanation = ("must-dataflow of `isinstance(_, MarshalEvent)` knowledge over the CFGs of both printers (Q1), typestate "
-                       "of pulled events in the list folder (Q2), FOLLOW-set facts from L (Q3), row-shape def-use (Q4)")
+                       "of pulled events in the list folder (Q2), FOLLOW-set facts from L (Q3), row-shape def-use (Q4), folding mode / "
+                       "membership / empty-list flag of the list folder over path summaries (Q5), unbound and undefined names (Q6), "
+                       "discarded generators (Q7), the byte buffer's translation table folded by the mini interpreter (Q8)")
     q1(run, project)
     q2(run, project)
     q3(run, L)
